@@ -180,6 +180,8 @@ func init() {
 		op{name: "UnmarshalJSON(fixed doc into self)", kind: 8},
 		op{name: "seq=All() kept for later", kind: 9},
 		op{name: "js,txt=MarshalJSON(),MarshalCedar() kept for later", kind: 10},
+		op{name: "Get(a).UnmarshalCedar(forbid-all)", kind: 11},
+		op{name: "Get(policy1).UnmarshalJSON(json of Get(a) or permit-all)", kind: 12},
 	)
 }
 
@@ -498,6 +500,35 @@ func (e *exec) apply(o op) {
 	case 9:
 		e.seq = ps.All()
 		m.seq = cloneM(m.set)
+	case 11, 12:
+		// re-decode INTO a policy object that the set holds: the set's contents change with it
+		id, nk := cedar.PolicyID("a"), kFA
+		if o.kind == 12 {
+			id, nk = "policy1", kPA
+		}
+		p := ps.Get(id)
+		if p == nil || m.set[id].ptr != nil {
+			return // absent, or an object the harness also holds elsewhere (aliasing is the caller's business)
+		}
+		// copies taken earlier hold the same object: drop them rather than model the aliasing
+		e.cp, m.copy = nil, nil
+		var err error
+		if o.kind == 11 {
+			err = p.UnmarshalCedar([]byte(kindSrc[nk]))
+		} else {
+			js, _ := e.newPol(nk).MarshalJSON()
+			err = p.UnmarshalJSON(js)
+		}
+		if err != nil {
+			e.fail("re-unmarshal-error", "no error", err.Error())
+			return
+		}
+		old := m.set[id]
+		np := mpol{k: nk, ptr: old.ptr}
+		if o.kind == 11 {
+			np.pos = cedar.Position{Offset: 0, Line: 1, Column: 1}
+		}
+		m.set[id] = np
 	case 10:
 		js, err := ps.MarshalJSON()
 		if err != nil {
